@@ -1,3 +1,8 @@
+#[cfg(multiqueue2_verif)]
+use crate::verif_hooks::AtomicUsize;
+#[cfg(multiqueue2_verif)]
+use std::sync::atomic::Ordering;
+#[cfg(not(multiqueue2_verif))]
 use std::sync::atomic::{AtomicUsize, Ordering};
 
 #[cfg(target_pointer_width = "32")]
